@@ -7,7 +7,11 @@ pipeline for ALL orders; here the real code is run under many concrete orders):
                        processes under different PYTHONHASHSEED values, with the files created in
                        different orders, `os.scandir`/`os.listdir` shuffled by a `sitecustomize` shim
                        (placed in a scratch directory of the harness, no change to the repo) and the
-                       `[platform.*]` tables permuted.  Compared byte-for-byte.
+                       `[platform.*]` tables permuted.  Compared byte-for-byte.  The code bases carry the shapes of
+                       `harness/gen/ordershapes.py` (unguarded conditional include files under multi-pass compilers,
+                       macro-indirection conditionals with per-platform inner values, incomplete databases next to
+                       same-named headers): inputs on which one shared file is visited several times, so that a
+                       visit-order dependence has something to act on.
   B. table stream    — `report.summary/divergence/distance/coverage/average_coverage` in process on the
                        same setmap with shuffled dict insertion orders and shuffled frozenset
                        construction; compared bit-for-bit, and against the Lean model (driver).
@@ -46,6 +50,7 @@ from pathlib import Path
 from harness import core
 from harness.gen import codebase as cbgen
 from harness.props import c14_text as CT
+from harness.gen import ordershapes
 
 SHIM = r'''
 # interposed by the CBI verification harness (C14): shuffles directory enumeration
@@ -285,11 +290,13 @@ def compare_cli(ctx, drv, desc, variants, results, origin):
     if len(nonempty) >= 2 and metrics.get("divergence") not in (None, "nan"):
         ctx.nontrivial.add("cli:" + json.dumps(desc["texts"], sort_keys=True)[:2000] + repr(sorted(desc["platforms"])))
     ctx.dist[f"cli:platform_sets={len(rows)}"] += 1
+    for sh in desc.get("shapes", {}):
+        ctx.dist[f"cli:shape={sh}"] += 1
     ctx.dist[f"cli:dup_groups={len(parse_duplicates(bsec['duplicates']) or [])}"] += 1
 
 
-def gen_desc(rng, scratch):
-    """a random code base description (nothing kept on disk)"""
+def gen_desc(rng, scratch, force=()):
+    """a random code base description (nothing kept on disk); `force` names shapes of `ordershapes` that must be present"""
     nplat = rng.choice([2, 3, 3, 4, 4])
     desc = cbgen.gen_codebase(rng, scratch, nplat=nplat, dup_pool=True, symlinks=rng.random() < 0.3, write=False)
     # some commands define the same macro twice with different bodies (-DA=1 ... -DA=0): the outcome
@@ -372,7 +379,7 @@ def gen_desc(rng, scratch):
                                              "arguments": ["gcc"] + inc + ["-c", "c14_arch_user.c"]})
     # platform names that differ only in case: every sort of names has to be total, not case-folded (a tie is broken by
     # set iteration order, i.e. by the hash seed)
-    if len(desc["platforms"]) >= 2 and rng.random() < 0.3:
+    if len(desc["platforms"]) >= 2 and (rng.random() < 0.3 or "case-variant-names" in force):
         a, b = rng.sample(sorted(desc["platforms"]), 2)
         if a.upper() != a and a.upper() not in desc["platforms"]:
             desc["platforms"] = {(a.upper() if k == b else k): v for k, v in desc["platforms"].items()}   # e.g. cpu and CPU
@@ -394,8 +401,13 @@ def gen_desc(rng, scratch):
         desc["hardlinks"].append((os.path.join(d, "c14_hl_b.h"), os.path.join(d, "c14_hl_a.h")))
         if rng.random() < 0.5:
             desc["hardlinks"].append(("c14_hl_c.h", os.path.join(d, "c14_hl_a.h")))
+    # shapes whose result is a union / lookup over several visits of one shared file (see harness/gen/ordershapes.py): an
+    # unguarded conditional include file under multi-pass compilers (pass order = set order of the pass names), conditionals on
+    # macros defined in terms of a macro that differs per platform / pass (shared directive nodes, platform order), unresolvable
+    # includes next to several same-named files of the code base (registration order = set(codebase) order)
+    ordershapes.add_shapes(rng, desc, force=force)
     # JSON-clean (tuples -> lists) so that a replay file reproduces it exactly
-    return json.loads(json.dumps({k: desc[k] for k in ("texts", "platforms", "links", "hardlinks")}))
+    return json.loads(json.dumps({k: desc[k] for k in ("texts", "platforms", "links", "hardlinks", "shapes") if k in desc}))
 
 
 def cli_submit(ctx, pool, scratch, shimdir):
@@ -404,7 +416,8 @@ def cli_submit(ctx, pool, scratch, shimdir):
     nvar = 48 if ctx.thorough() else 8
     jobs = []
     for i in range(ncases):
-        desc = gen_desc(ctx.rng, scratch)
+        # every shape of ordershapes in a third of the cases (plus at random), case-variant platform names in every fourth
+        desc = gen_desc(ctx.rng, scratch, force=(ordershapes.SHAPES[i % 3],) + (("case-variant-names",) if i % 4 == 1 else ()))
         variants = [make_variant(ctx.rng, desc, k) for k in range(nvar)]
         base = scratch / f"case{i:03d}"
         futs = [pool.submit(run_variant, base, desc, v, shimdir) for v in variants]
@@ -800,7 +813,9 @@ def analysis_stream(ctx, drv, scratch):
         root = scratch / f"an{i:04d}"
         root.mkdir()
         root = root.resolve()
-        desc = gen_desc(ctx.rng, scratch)
+        desc = gen_desc(ctx.rng, scratch, force=(ordershapes.SHAPES[i % 3],))
+        for sh in desc.get("shapes", {}):
+            ctx.dist[f"analysis:shape={sh}"] += 1
         cbgen.write_codebase(root, desc)
         plats = list(desc["platforms"])
         try:
@@ -1127,7 +1142,15 @@ def run(ctx, drv):
                 "macro, commands with repeated -D, duplicates pool, sometimes a symlink) x schedules (PYTHONHASHSEED, "
                 "os.scandir/os.listdir shuffle seed, file creation order, [platform.*] order); code bases also contain the same header name in two or "
                 "three -I/-isystem directories, a header only some platforms can resolve, aliases whose extension belongs to another language "
-                "family, cross-directory symbolic links, hard-linked names plus a byte-identical copy, platform names that differ only in case; "
+                "family, cross-directory symbolic links, hard-linked names plus a byte-identical copy, platform names that differ only in case "
+                "(forced in every fourth CLI case); shapes of harness/gen/ordershapes.py, each forced in a third of the code bases and added at "
+                "random (p=0.6) to the others: [multipass] an unguarded include file without #define/#include/#pragma whose conditionals read "
+                "__CUDA_ARCH__ / __SYCL_DEVICE_ONLY__ / __SPIR__ / __NVPTX__ / _OPENMP, included (sometimes twice) from translation units "
+                "compiled by nvcc (default, --gpu-architecture, several -gencode) or icpx/icx -fsycl [-fsycl-targets=a,b] next to single-pass "
+                "g++/clang++ platforms; [indirect] conditionals on macros defined in terms of another macro (alias, two-level alias, "
+                "parenthesised expression, function-like) whose inner macro every platform's command line (and every compiler pass) sets "
+                "differently; [incomplete] user includes that no -I resolves (base name only, and directory-qualified) next to 2-3 same-named "
+                "headers per name in per-backend directories defining different macros, a few platforms with the complete include paths; "
                 "every schedule is compared with "
                 "schedule 0. Table stream: setmaps over 2-7 platforms (all tables over 2 platforms with counts {absent,1,2} "
                 "exhaustively; random ones incl. totals on x.xx5 rounding boundaries) x shuffled dict/frozenset construction "
@@ -1233,6 +1256,8 @@ def replay(ctx, drv, case):
             if "cov" in res[0]:
                 out["implementation"]["coverage_json_equal"] = res[0]["cov"][1] == res[1]["cov"][1]
             out["spec"] = "all listed sections byte-identical for every schedule"
+            if case["desc"].get("shapes"):
+                out["shapes_in_code_base"] = case["desc"]["shapes"]   # see harness/gen/ordershapes.py
             if case["kind"] == "modes" and drv is not None and "modes_case" in case:
                 mc = case["modes_case"]
                 out["model"] = drv.ask({"op": "order_modes", "cmdline": [], "names": ["X", "Y", "Z"],
@@ -1281,4 +1306,6 @@ def replay(ctx, drv, case):
                      "attribution_equal": cbgen.attribution(list(cb2), st2, str(root)) == cbgen.attribution(list(cb), st, str(root))}
             out["implementation"] = {"order_a": a, "order_b": b}
             out["spec"] = "identical"
+            if case["desc"].get("shapes"):
+                out["shapes_in_code_base"] = case["desc"]["shapes"]
     return out
